@@ -69,11 +69,22 @@ Proof. exact patch_new_diff. Qed.
 Check patch_constructor_identity : forall a b, Struct a -> Struct b -> patch_new (diff a b) = diff a b.
 Print Assumptions patch_constructor_identity.
 
-(* Every op list keeps the structural invariant (canonical maps, stores and instances in step). *)
-Theorem Struct_preserved : forall ops a s, Struct a -> apply_ops ops a = Ok s -> Struct s.
-Proof. exact apply_ops_Struct. Qed.
-Check Struct_preserved : forall ops a s, Struct a -> apply_ops ops a = Ok s -> Struct s.
-Print Assumptions Struct_preserved.
+(* FULL STATEMENT (false of the code): WF_preserved : WF a -> apply_ops ops a = Ok b -> WF b.
+   What every op list preserves is structural well-formedness (canonical maps, stores and instances in
+   step, attachments only on existing owners) ... *)
+Theorem WF_preserved_partial : forall ops a s, WFs a -> apply_ops ops a = Ok s -> WFs s.
+Proof. exact apply_ops_WFs. Qed.
+Check WF_preserved_partial : forall ops a s, WFs a -> apply_ops ops a = Ok s -> WFs s.
+Print Assumptions WF_preserved_partial.
+
+(* ... but not referential integrity: UpsertEdge does not check that its endpoints exist. *)
+Theorem WF_preserved_refuted : exists ops a b, WF a /\ apply_ops ops a = Ok b /\ ~ WF b.
+Proof.
+  exists (patch_new w4_ops), w2_before, w4_after. destruct w4_facts as (H1 & H2 & _).
+  split; [apply wfb_sound, H1|]. split; [exact H2|]. intros (_ & H & _). exact (w4_not_ref H).
+Qed.
+Check WF_preserved_refuted : exists ops a b, WF a /\ apply_ops ops a = Ok b /\ ~ WF b.
+Print Assumptions WF_preserved_refuted.
 
 (* "A failed application is never reported as success": the first failing op is the result
    of the whole application, whatever follows it ... *)
